@@ -23,7 +23,7 @@ func (*c04) ID() string    { return "C04" }
 func (*c04) Level() string { return "exploration" }
 func (*c04) NumCases(tier string) int {
 	if tier == "thorough" {
-		return 150000
+		return 60000
 	}
 	return 5000
 }
